@@ -534,6 +534,10 @@ func (w *c17World) opSetApx() {
 		bc = w.bufChoice(lf.f)
 	}
 	o := w.observeOne(lf)
+	if len(o.data) < o0.xi || len(o0.data) < o0.xi {
+		w.violate(fmt.Sprintf("after SetAppendixData the frame can no longer be read with its margins (%d bytes readable, the appendix starts at %d): %s", len(o.data), o0.xi, desc), "apx-unreadable")
+		return
+	}
 	if !bytes.Equal(o.data[:o0.xi], o0.data[:o0.xi]) || !bytes.Equal(o.data[o0.xi:], apx) {
 		w.violate("SetAppendixData changed bytes before the appendix or did not store the appendix: "+desc, "apx-content")
 	}
